@@ -82,7 +82,7 @@ instance : IntScore Float32 where
 def sqCopyGuard : Bool := true
 
 /-- does the tree's `esl_sq_GetFromMSA` allocate a NULL `sq->ss` to the exact SS-line length? (mirrors the code under check) -/
-def getFromMSAExactSs : Bool := true
+def getFromMSAExactSs : Bool := false
 
 def doDigitize (s : S) (a : Alphabet) (txt : List Nat) : S × String :=
   let (st, d) := a.digitize (cstr txt)
